@@ -128,6 +128,18 @@ pub fn plans(ctx: &WorkerCtx) -> Vec<Plan> {
     let g2: Vec<_> = fam::g2(if q { 1999 } else { 199 }, 11).into_iter().filter(|(_, m)| format!("{:?}", m).contains("BlockOutgoing")).collect();
     let dd3 = d3.clone();
     v.push(Plan { name: "G2 machines with blocking actions, pairs".into(), cfgs: fam::pairs_strided(&g2, 31, 7, &[(0.0, 0.5), (0.0, 0.25), (0.0, 1.0)]), alpha_for: Box::new(move |c: &Cfg| Alphabet { batches: all_single_events(c.machines.len(), false).into_iter().map(|e| vec![e]).collect(), deltas: dd3.clone() }), opts: Opts { depth: if q { 2 } else { 3 }, ..base.clone() }, walk: None });
+    let mut tiny = vec![];
+    for kind in 0..2 {
+        for allowed in [0u64, 2] {
+            for (fname, frac) in [("5e-324", 5e-324), ("min_positive", f64::MIN_POSITIVE), ("epsilon", f64::EPSILON)] {
+                tiny.push((format!("blocker[k{kind},repfalse,allowed{allowed},frac{fname}]"), fam::blocker(kind, false, allowed, frac)));
+            }
+        }
+    }
+    let mut tcfgs = fam::singles(&tiny, &[(0.0, 0.0), (0.0, 1.0)]);
+    tcfgs.extend(fam::singles(&blks.iter().filter(|(n, _)| n.contains("repfalse") && (n.ends_with("frac0]") || n.ends_with("frac1]"))).cloned().collect::<Vec<_>>(), &[(0.0, 5e-324), (0.0, f64::EPSILON)]));
+    let dd4 = d3.clone();
+    v.push(Plan { name: "own and framework blocking fractions at the bottom of the valid range (5e-324 .. f64::EPSILON)".into(), cfgs: tcfgs, alpha_for: Box::new(move |c: &Cfg| alphabet(c.machines.len(), dd4.clone())), opts: Opts { depth: if q { 4 } else { 6 }, ..base.clone() }, walk: None });
     v
 }
 
